@@ -187,6 +187,8 @@ impl<T: Clone + 'static> Stream for VectorSubscriberBatchedStream<T> {
             Ok(msg) => {
                 let mut batch = msg.diffs.into_vec();
                 loop {
+                    #[cfg(eyeball_verif)]
+                    verif_hooks::pause("batched-stream: before try_recv");
                     match rx.try_recv() {
                         Ok(msg) => append(&mut batch, msg.diffs),
                         Err(TryRecvError::Empty | TryRecvError::Closed) => {
@@ -215,6 +217,8 @@ impl<T: Clone + 'static> Stream for VectorSubscriberBatchedStream<T> {
 fn handle_lag<T: Clone + 'static>(rx: &mut Receiver<BroadcastMessage<T>>) -> Option<Vector<T>> {
     let mut msg = None;
     loop {
+        #[cfg(eyeball_verif)]
+        verif_hooks::pause("handle_lag: before try_recv");
         match rx.try_recv() {
             // There's a newer message in the receiver's buffer, use that for reset.
             Ok(m) => {
@@ -238,6 +242,40 @@ fn handle_lag<T: Clone + 'static>(rx: &mut Receiver<BroadcastMessage<T>>) -> Opt
                 // message in it, even though we got TryRecvError::Lagged(_) before.
                 None => unreachable!("got no new message via try_recv after lag"),
             },
+        }
+    }
+}
+
+/// Pause points for the verification harness (`--cfg eyeball_verif` only):
+/// places at which the sender side may run "concurrently" with a poll. The
+/// harness installs a thread-local callback and performs the other thread's
+/// operations from it; without a callback a pause does nothing.
+#[cfg(eyeball_verif)]
+pub mod verif_hooks {
+    use std::cell::RefCell;
+
+    type Hook = Box<dyn FnMut(&'static str)>;
+
+    thread_local! {
+        static PAUSE: RefCell<Option<Hook>> = const { RefCell::new(None) };
+    }
+
+    /// Install (or remove) the callback run at every pause point of this thread.
+    pub fn set_pause_hook(hook: Option<Hook>) {
+        PAUSE.with(|p| *p.borrow_mut() = hook);
+    }
+
+    pub(crate) fn pause(point: &'static str) {
+        // Take the hook out while it runs so that it may itself poll streams.
+        let hook = PAUSE.with(|p| p.borrow_mut().take());
+        if let Some(mut hook) = hook {
+            hook(point);
+            PAUSE.with(|p| {
+                let mut slot = p.borrow_mut();
+                if slot.is_none() {
+                    *slot = Some(hook);
+                }
+            });
         }
     }
 }
